@@ -5,11 +5,11 @@
  "bound": "generated test files through Example.run_inline: 23 statement layouts x 5 headers x 21 argument edits x 6 flag sets, LF/CRLF, formatter-clean and not clean (C03); 9 pyproject [tool.black] variants x 5 shapes x values around the line limit (C20); Is()/f-string/star-expression/nested-snapshot name inside list/tuple/dict/call at every position (C10); containers of hand-written element expressions, depth<=2, width<=4, random edit scripts + all sequence pairs over 3 symbols up to length 3 (C11)",
  "input": {
   "prop": "C20",
-  "name": "nested_call_arg/ll60+skip-sn+skip-mtc/list",
+  "name": "two/ll60+skip-sn+skip-mtc/list",
   "flags": "create,fix",
-  "source": "from inline_snapshot import snapshot\n\n\ndef g(a, b=None):\n    return a\n\n\ndef test_e():\n    assert g([0, 1, 2, 3, 4, 5, 6, 7, 8, 9, 10, 11, 12, 13, 14, 15, 16, 17, 18, 19, 20, 21, 22, 23, 24, 25], b='kw') == g(snapshot(['old']), b=\"kw\")\n"
+  "source": "from inline_snapshot import snapshot\n\n\ndef test_d():\n    assert [0, 1, 2, 3, 4, 5, 6, 7, 8, 9, 10, 11, 12, 13, 14, 15, 16, 17, 18, 19, 20, 21, 22, 23, 24, 25, 26, 27, 28, 29, 30, 31, 32, 33, 34, 35, 36, 37, 38, 39] == snapshot()\n    assert [0, 1, 2, 3, 4, 5, 6, 7] == snapshot(['old'])\n"
  },
- "detail": "[C20 nested_call_arg/ll60+skip-sn+skip-mtc/list flags=create,fix] black mode taken from pyproject.toml differs from the configured one: Mode(target_versions=set(), line_length=60, string_normalization=True, is_pyi=False, is_ipynb=False, skip_source_first_line=False, magic_trailing_comma=False, python_cell_magics=set(), preview=False, unstable=False, enabled_features=set()) != Mode(target_versions=set(), line_length=60, string_normalization=False, is_pyi=False, is_ipynb=False, skip_source_first_line=False, magic_trailing_comma=False, python_cell_magics=set(), preview=False, unstable=False, enabled_features=set())\n--- before ---\nfrom inline_snapshot import snapshot\n\n\ndef g(a, b=None):\n    return a\n\n\ndef test_e():\n    assert g(\n        [\n            0,\n            1,\n            2,\n            3,\n            4,\n            5,\n            6,\n            7,\n            8,\n            9,\n            10,\n            11,\n            12,\n            13,\n            14,\n            15,\n            16,\n            17,\n            18,\n            19,\n            20,\n            21,\n            22,\n            23,\n            24,\n            25,\n        ],\n        b='kw',\n    ) == g(snapshot(['old']), b=\"kw\")\n"
+ "detail": "[C20 two/ll60+skip-sn+skip-mtc/list flags=create,fix] black mode taken from pyproject.toml differs from the configured one: Mode(target_versions=set(), line_length=60, string_normalization=True, is_pyi=False, is_ipynb=False, skip_source_first_line=False, magic_trailing_comma=False, python_cell_magics=set(), preview=False, unstable=False, enabled_features=set()) != Mode(target_versions=set(), line_length=60, string_normalization=False, is_pyi=False, is_ipynb=False, skip_source_first_line=False, magic_trailing_comma=False, python_cell_magics=set(), preview=False, unstable=False, enabled_features=set())\n--- before ---\nfrom inline_snapshot import snapshot\n\n\ndef test_d():\n    assert [\n        0,\n        1,\n        2,\n        3,\n        4,\n        5,\n        6,\n        7,\n        8,\n        9,\n        10,\n        11,\n        12,\n        13,\n        14,\n        15,\n        16,\n        17,\n        18,\n        19,\n        20,\n        21,\n        22,\n        23,\n        24,\n        25,\n        26,\n        27,\n        28,\n        29,\n        30,\n        31,\n        32,\n        33,\n        34,\n        35,\n        36,\n        37,\n        38,\n        39,\n    ] == snapshot()\n    assert [0, 1, 2, 3, 4, 5, 6, 7] == snapshot(['old'])\n"
 }
 """
 
@@ -62,7 +62,7 @@ def rerun_identity(src):
         inline_snapshot.snapshot = real
 
 import ast
-SRC = 'from inline_snapshot import snapshot\n\n\ndef g(a, b=None):\n    return a\n\n\ndef test_e():\n    assert g(\n        [\n            0,\n            1,\n            2,\n            3,\n            4,\n            5,\n            6,\n            7,\n            8,\n            9,\n            10,\n            11,\n            12,\n            13,\n            14,\n            15,\n            16,\n            17,\n            18,\n            19,\n            20,\n            21,\n            22,\n            23,\n            24,\n            25,\n        ],\n        b=\'kw\',\n    ) == g(snapshot([\'old\']), b="kw")\n'
+SRC = "from inline_snapshot import snapshot\n\n\ndef test_d():\n    assert [\n        0,\n        1,\n        2,\n        3,\n        4,\n        5,\n        6,\n        7,\n        8,\n        9,\n        10,\n        11,\n        12,\n        13,\n        14,\n        15,\n        16,\n        17,\n        18,\n        19,\n        20,\n        21,\n        22,\n        23,\n        24,\n        25,\n        26,\n        27,\n        28,\n        29,\n        30,\n        31,\n        32,\n        33,\n        34,\n        35,\n        36,\n        37,\n        38,\n        39,\n    ] == snapshot()\n    assert [0, 1, 2, 3, 4, 5, 6, 7] == snapshot(['old'])\n"
 FLAGS = 'create,fix'
 CWD_FILES = {'pyproject.toml': '[tool.black]\nline-length = 60\nskip-string-normalization = true\nskip-magic-trailing-comma = true\n'}
 files = {'test_something.py': SRC}
@@ -94,13 +94,13 @@ def masked(src, changed):
             out.append(src[pos:a] + chr(0))
             pos = b
     return ''.join(out) + src[pos:]
-CHANGED = [0]
+CHANGED = [0, 1]
 if black.format_str(lf, mode=mode) != lf:  # not formatter-clean: byte for byte outside the changed arguments
     assert masked(SRC, CHANGED) == masked(new, CHANGED), 'C03: text outside the parentheses of the changed snapshot() calls differs'
 # finally the exact oracle of the stand-in (needs /verif on sys.path)
 sys.path.insert(0, '/verif')
 from bounded import b_layout
-CASE = {'prop': 'C20', 'name': 'nested_call_arg/ll60+skip-sn+skip-mtc/list', 'src': 'from inline_snapshot import snapshot\n\n\ndef g(a, b=None):\n    return a\n\n\ndef test_e():\n    assert g([0, 1, 2, 3, 4, 5, 6, 7, 8, 9, 10, 11, 12, 13, 14, 15, 16, 17, 18, 19, 20, 21, 22, 23, 24, 25], b=\'kw\') == g(snapshot([\'old\']), b="kw")\n', 'flags': 'create,fix', 'changed': [0], 'crlf': False, 'make_clean': True, 'mode_opts': {'line_length': 60, 'string_normalization': False, 'magic_trailing_comma': False}, 'toml': '[tool.black]\nline-length = 60\nskip-string-normalization = true\nskip-magic-trailing-comma = true\n', 'expect_green': True}
+CASE = {'prop': 'C20', 'name': 'two/ll60+skip-sn+skip-mtc/list', 'src': "from inline_snapshot import snapshot\n\n\ndef test_d():\n    assert [0, 1, 2, 3, 4, 5, 6, 7, 8, 9, 10, 11, 12, 13, 14, 15, 16, 17, 18, 19, 20, 21, 22, 23, 24, 25, 26, 27, 28, 29, 30, 31, 32, 33, 34, 35, 36, 37, 38, 39] == snapshot()\n    assert [0, 1, 2, 3, 4, 5, 6, 7] == snapshot(['old'])\n", 'flags': 'create,fix', 'changed': [0, 1], 'crlf': False, 'make_clean': True, 'mode_opts': {'line_length': 60, 'string_normalization': False, 'magic_trailing_comma': False}, 'toml': '[tool.black]\nline-length = 60\nskip-string-normalization = true\nskip-magic-trailing-comma = true\n', 'expect_green': True}
 out = b_layout.eval_case(CASE)
 assert out['status'] != 'fail', out['detail']
 
